@@ -28,8 +28,9 @@ def V(name):
 
 
 class Var:
-    def __init__(self, ty, const=None, maybe=False, cell=None):
-        self.ty, self.const, self.maybe, self.cell = ty, const, maybe, cell   # maybe: the Gallina variable holds an option (possibly unbound local)
+    def __init__(self, ty, const=None, maybe=False, cell=None, present=False):
+        self.ty, self.const, self.maybe, self.cell = ty, const, maybe, cell
+        self.present = present    # an optional parameter inside the branch where it is known not to be None   # maybe: the Gallina variable holds an option (possibly unbound local)
 
     def copy(self):
         return Var(self.ty, self.const, self.maybe, self.cell)
@@ -56,6 +57,8 @@ class Fn:
             return f"(Some {text})"
         if ty == "NONE" and want in OPTION_OF:
             return "None"
+        if ty == "EMPTY" and want in (LN, LZ, LT):
+            return "[]"
         raise Untranslatable(f"type {ty} where {want} is needed: {text}")
 
     def is_backend(self, f, name):
@@ -132,6 +135,8 @@ class Fn:
             if ty != T:
                 raise Untranslatable("shape of " + _u(e.value))
             return f"(shape {t})", LN
+        if isinstance(e, (ast.Tuple, ast.List)) and not e.elts:
+            return "[]", "EMPTY"
         if isinstance(e, ast.Call):
             return self.call(e, env, pre)
         if isinstance(e, ast.Subscript):
@@ -145,6 +150,11 @@ class Fn:
         left = e.left
         for op, right in zip(e.ops, e.comparators):
             if isinstance(op, (ast.Is, ast.IsNot)):
+                if (isinstance(right, ast.Constant) and right.value is None and isinstance(left, ast.Name)
+                        and left.id in env and env[left.id].present):
+                    parts.append("false" if isinstance(op, ast.Is) else "true")
+                    left = right
+                    continue
                 if not (isinstance(right, ast.Constant) and right.value is None and isinstance(left, ast.Name)
                         and left.id in env and env[left.id].ty in OPTION_OF and not env[left.id].maybe):
                     raise Untranslatable("identity test " + _u(e))
@@ -231,8 +241,25 @@ class Fn:
             return f"(seq 0 {t})", LN
         if isinstance(f, ast.Name) and f.id == "unfold":
             a = self.kwargs(c, ["tensor", "mode"], 2)
-            t = self.arg(a["tensor"], env, pre, T); m = self.arg(a["mode"], env, pre, N)
-            h = self.fresh(); pre.append((h, f"unfold (r0 Op) {t} {m}"))
+            t = self.arg(a["tensor"], env, pre, T)
+            m, tm = self.expr(a["mode"], env, pre)
+            h = self.fresh()
+            if tm == N:
+                pre.append((h, f"unfold (r0 Op) {t} {m}"))
+            elif tm == Z:
+                pre.append((h, f"unfold_z Op {t} {m}"))       # np.moveaxis resolves a negative mode from the end
+            else:
+                raise Untranslatable("mode of unfold: " + _u(c))
+            return h, T
+        if isinstance(f, ast.Name) and f.id == "fold":
+            a = self.kwargs(c, ["unfolded_tensor", "mode", "shape"], 3)
+            u = self.arg(a["unfolded_tensor"], env, pre, T); m = self.arg(a["mode"], env, pre, Z); sh = self.arg(a["shape"], env, pre, LN)
+            h = self.fresh(); pre.append((h, f"fold_z Op {u} {m} {sh}"))
+            return h, T
+        if isinstance(f, ast.Name) and f.id == "vec_to_tensor":
+            a = self.kwargs(c, ["vec", "shape"], 2)
+            u = self.arg(a["vec"], env, pre, T); sh = self.arg(a["shape"], env, pre, LN)
+            h = self.fresh(); pre.append((h, f"vec_to_tensor {u} {sh}"))
             return h, T
         if isinstance(f, ast.Name) and f.id == "mode_dot":
             a = self.kwargs(c, ["tensor", "matrix_or_vector", "mode", "transpose"], 3)
@@ -287,6 +314,9 @@ class Fn:
         i, ti = self.expr(s, env, pre)
         if ty == LN and ti == N:
             return f"(nth {i} {t} 0)", N
+        if ty == LN and ti == Z:
+            h = self.fresh(); pre.append((h, f"py_nth_z {t} {i}"))     # IndexError when out of range
+            return h, N
         raise Untranslatable("subscript " + _u(e))
 
     def listcomp(self, e, env, pre):
@@ -340,6 +370,8 @@ class Fn:
         if old is not None and old.cell is not None:      # a loop-state local bound on this path
             env[name] = Var(ty, const, False, old.cell)
             return f"let {V(name)} := {text} in ", env
+        if old is not None and ty == "EMPTY" and old.ty in (LN, LZ, LT):
+            ty = old.ty
         if old is not None and old.ty != ty:
             if old.ty in OPTION_OF and OPTION_OF[old.ty] == ty:
                 pass                                       # an optional parameter replaced by its default
@@ -391,6 +423,27 @@ class Fn:
                 raise Untranslatable("tuple assignment " + _u(s))
             env2 = dict(env); env2[names[0]] = Var(OT); env2[names[1]] = Var(LT)
             return f"let '({V(names[0])}, {V(names[1])}) := {V(s.value.id)} in " + self.run(rest, env2, k)
+        if (isinstance(s, ast.Assign) and len(s.targets) == 1 and isinstance(s.targets[0], ast.Subscript)
+                and isinstance(s.targets[0].value, ast.Name) and not isinstance(s.targets[0].slice, ast.Slice)):
+            x = s.targets[0].value.id
+            if x not in env or env[x].ty != LN or env[x].maybe or getattr(k, "is_loop", False):
+                raise Untranslatable("item assignment " + _u(s))
+            pre = []
+            v = self.arg(s.value, env, pre, N)
+            i = self.arg(s.targets[0].slice, env, pre, Z)
+            h = self.fresh(); pre.append((h, f"py_set_z {V(x)} {i} {v}"))
+            let, env2 = self.assign(x, h, LN, env)
+            return self.wrap(pre, let + self.run(rest, env2, k))
+        if (isinstance(s, ast.Expr) and isinstance(s.value, ast.Call) and isinstance(s.value.func, ast.Attribute) and s.value.func.attr == "pop"
+                and isinstance(s.value.func.value, ast.Name) and len(s.value.args) == 1 and not s.value.keywords):
+            x = s.value.func.value.id
+            if x not in env or env[x].ty != LN or env[x].maybe or getattr(k, "is_loop", False):
+                raise Untranslatable("pop " + _u(s))
+            pre = []
+            i = self.arg(s.value.args[0], env, pre, Z)
+            h = self.fresh(); pre.append((h, f"py_pop_z {V(x)} {i}"))
+            let, env2 = self.assign(x, h, LN, env)
+            return self.wrap(pre, let + self.run(rest, env2, k))
         if isinstance(s, ast.AugAssign) and isinstance(s.target, ast.Name) and isinstance(s.op, (ast.Add, ast.Sub)):
             return self.run([ast.Assign(targets=[ast.Name(id=s.target.id, ctx=ast.Store())],
                                         value=ast.BinOp(left=ast.Name(id=s.target.id, ctx=ast.Load()), op=s.op, right=s.value))] + rest, env, k)
@@ -408,7 +461,7 @@ class Fn:
                 and t.left.id in env and env[t.left.id].ty in OPTION_OF and not env[t.left.id].maybe):
             x = t.left.id
             none_body, some_body = (s.body, s.orelse) if isinstance(t.ops[0], ast.Is) else (s.orelse, s.body)
-            env_some = dict(env); env_some[x] = Var(OPTION_OF[env[x].ty])
+            env_some = dict(env); env_some[x] = Var(OPTION_OF[env[x].ty], present=True)
             return (f"(match {V(x)} with None => {self.run(list(none_body) + rest, dict(env), k)} "
                     f"| Some {V(x)} => {self.run(list(some_body) + rest, env_some, k)} end)")
         pre = []
@@ -417,9 +470,17 @@ class Fn:
             c, tc = f"(negb (Nat.eqb {c} 0))", B
         if tc != B:
             raise Untranslatable("condition " + _u(t))
-        return self.wrap(pre, f"(if {c} then {self.run(list(s.body) + rest, dict(env), k)} else {self.run(list(s.orelse) + rest, dict(env), k)})")
+        try:
+            a = self.run(list(s.body) + rest, dict(env), k)
+            b = self.run(list(s.orelse) + rest, dict(env), k)
+        except Untranslatable as e:
+            if "before its type is known" not in str(e):
+                raise
+            b = self.run(list(s.orelse) + rest, dict(env), k)      # the other branch binds the local first
+            a = self.run(list(s.body) + rest, dict(env), k)
+        return self.wrap(pre, f"(if {c} then {a} else {b})")
 
-    def for_(self, s, rest, env, k):
+    def for_(self, s, rest, env, k, temps=None):
         if s.orelse:
             raise Untranslatable("for ... else")
         for n in ast.walk(s):
@@ -464,6 +525,19 @@ class Fn:
                 raise Untranslatable("list mutation inside a loop: " + _u(n))
         if not state:
             raise Untranslatable("loop without state")
+        # a local that is first bound inside the body and not used after the loop is a temporary of one iteration, not loop state
+        # (if some path of the body reads it before binding it, the translation below fails with "free name" and it becomes state)
+        if temps is None:
+            rest_names = {n.id for st_ in rest for n in ast.walk(st_) if isinstance(n, ast.Name)}
+            temps = [x for x in state if x not in env and x not in rest_names]
+            if temps and len(temps) < len(state):
+                try:
+                    return self.for_(s, rest, env, k, temps=temps)
+                except Untranslatable as e:
+                    if not any(str(e) == "free name " + x for x in temps):
+                        raise
+            temps = []
+        state = [x for x in state if x not in temps]
         env_in = dict(env)
         init = []
         for x in state:
@@ -525,18 +599,53 @@ def _function(repo, rel, name):
 
 
 HEADER = """From Coq Require Import List Arith ZArith Lia Bool. Import ListNotations.
-From TLV Require Import Base.Shape Base.PyList Base.Tensor Model.Base Model.Tenalg Proofs.TenalgProofsSrc.
+From TLV Require Import Base.Shape Base.PyList Base.Tensor Model.Base Model.Tenalg Proofs.TenalgProofs Proofs.TenalgProofsValidate Proofs.TenalgProofsSrc.
 Ltac split_all :=
-  repeat (cbn [rbind fst snd negb andb orb py_get Nat.eqb];
+  repeat (cbn [rbind fst snd negb andb orb py_get Nat.eqb Nat.ltb Nat.leb];
           first [ match goal with |- context [if ?b then _ else _] => is_var b; destruct b end
                 | match goal with |- context [match ?o with Some _ => _ | None => _ end] => is_var o; destruct o end
                 | match goal with |- context [if ?b then _ else _] => destruct b eqn:? end
                 | match goal with |- context [rbind ?x _] => destruct x eqn:? end ]);
-  cbn [rbind fst snd negb andb orb py_get Nat.eqb].
+  cbn [rbind fst snd negb andb orb py_get Nat.eqb Nat.ltb Nat.leb].
 Section G. Context {F : Type} (Op : rops F).
 """
 
 PROOFS = {
+    "mode_dot": """
+Lemma py_index_lt n z k : py_index n z = Some k -> k < n.
+Proof. intros H. exact (proj1 (py_index_spec _ _ _ H)). Qed.
+Theorem mode_dot_source_is_model : forall T M z tr, mode_dot_py T M z tr = mode_dot_z Op T M z tr.
+Proof.
+  intros T M z tr. unfold mode_dot_py, mode_dot_z, mode_dot, unfold_z, fold_z, py_set_z, py_pop_z, ndim. cbv zeta.
+  rewrite ?rbind_ok_id.
+  destruct (py_index (length (shape T)) z) as [k|] eqn:Ez.
+  2:{ rewrite (py_nth_z_none _ _ Ez). destruct (shape M) as [|a [|b [|c s]]]; cbn [length Nat.eqb]; try reflexivity;
+      destruct tr; rewrite ?py_nth_z_0, ?py_nth_z_1; reflexivity. }
+  rewrite (py_nth_z_some _ _ _ Ez).
+  pose proof (py_index_lt _ _ _ Ez) as Hk. apply Nat.ltb_lt in Hk. rewrite Hk. cbn [andb].
+  destruct (shape M) as [|a [|b [|c s]]] eqn:EM; cbn [length Nat.eqb]; try reflexivity.
+  - (* vector *)
+    rewrite py_nth_z_0. cbn [rbind]. destruct (Nat.eqb a (nth k (shape T) 0)) eqn:Ea; cbn [negb]; [|reflexivity].
+    apply Nat.eqb_eq in Ea.
+    assert (Hpop : (if Nat.ltb 1 (length (shape T)) then Ok (remove_nth k (shape T)) else Ok []) = Ok (remove_nth k (shape T))).
+    { apply Nat.ltb_lt in Hk. destruct (shape T) as [|x [|y r]]; cbn in *; try lia; [|reflexivity]. destruct k; [reflexivity|lia]. }
+    destruct (Nat.ltb 1 (length (shape T))) eqn:El; cbn [rbind];
+      (destruct (unfold (r0 Op) T k) as [U|] eqn:EU; cbn [rbind]; [|reflexivity]);
+      rewrite (np_dot_vec Op M U a EM) by (rewrite (unfold_nrows Op T U k EU); congruence); cbn [rbind];
+      rewrite ?rbind_ok_id; first [reflexivity | injection Hpop as <-; reflexivity].
+  - (* matrix *)
+    destruct tr; cbn [negb]; rewrite ?py_nth_z_0, ?py_nth_z_1; cbn [rbind];
+      (destruct (Nat.eqb _ (nth k (shape T) 0)) eqn:Ea; cbn [negb]; [|reflexivity]); apply Nat.eqb_eq in Ea.
+    + rewrite (shape_conj_transpose Op M a b EM), py_nth_z_0. cbn [rbind]. rewrite set_nth_length, Ez.
+      destruct (unfold (r0 Op) T k) as [U|] eqn:EU; cbn [rbind]; [|reflexivity].
+      rewrite (np_dot_mat Op _ U b a (shape_conj_transpose Op M a b EM)) by (rewrite (unfold_nrows Op T U k EU); congruence).
+      cbn [rbind]. rewrite ?rbind_ok_id. unfold nrows. rewrite (shape_conj_transpose Op M a b EM). reflexivity.
+    + rewrite ?EM, ?py_nth_z_0. cbn [rbind]. rewrite set_nth_length, Ez.
+      destruct (unfold (r0 Op) T k) as [U|] eqn:EU; cbn [rbind]; [|reflexivity].
+      rewrite (np_dot_mat Op M U a b EM) by (rewrite (unfold_nrows Op T U k EU); congruence).
+      cbn [rbind]. rewrite ?rbind_ok_id. unfold nrows. rewrite EM. reflexivity.
+Qed.
+""",
     # the loop is mmd_loop_z (base case + one unrolling, every branch); the statements before it are the model's by conversion
     "multi_mode_dot": """
 Theorem multi_mode_dot_source_is_model : forall T Ms modes skip tr,
@@ -567,20 +676,20 @@ Theorem mttkrp_source_is_model : forall T w fs mode,
   unfolding_dot_khatri_rao_py T (w, fs) mode = mttkrp Op T w fs mode.
 Proof.
   intros T w fs mode. unfold unfolding_dot_khatri_rao_py, mttkrp. cbv zeta.
-  destruct (khatri_rao Op fs w None (Some mode)) as [KR|]; cbn [rbind]; [|reflexivity].
-  destruct (unfold (r0 Op) T mode) as [U|] eqn:E; cbn [rbind]; [|reflexivity].
-  destruct (unfold_shape2 Op T U mode E) as [c Es]. unfold np_dot, ncols, nrows. rewrite Es. cbn [nth shape conj_t tmap].
+  destruct (khatri_rao Op fs w None (Some mode)) as [KR|]; destruct (unfold (r0 Op) T mode) as [U|] eqn:E; cbn [rbind]; try reflexivity.
+  destruct (unfold_shape2 Op T U mode E) as [c Es]. unfold np_dot, ncols, nrows. rewrite Es. cbn [nth shape conj_t tmap rbind].
   destruct (Nat.eqb c (nth 0 (shape KR) 0)); reflexivity.
 Qed.
 """,
 }
 
 ROUTINES = [
+    ("n_mode_product.py", "mode_dot", {"tensor": T, "matrix_or_vector": T, "mode": Z, "transpose": B}, T),
     ("n_mode_product.py", "multi_mode_dot", {"tensor": T, "matrix_or_vec_list": LT, "modes": OLZ, "skip": ON, "transpose": B}, T),
     ("_kronecker.py", "kronecker", {"matrices": LT, "skip_matrix": ON, "reverse": B}, T),
     ("mttkrp.py", "unfolding_dot_khatri_rao", {"tensor": T, "cp_tensor": PAIR_OT_LT, "mode": N}, T),
 ]
-THEOREMS = {"multi_mode_dot": "multi_mode_dot_source_is_model", "kronecker": "kronecker_source_is_model",
+THEOREMS = {"mode_dot": "mode_dot_source_is_model", "multi_mode_dot": "multi_mode_dot_source_is_model", "kronecker": "kronecker_source_is_model",
             "unfolding_dot_khatri_rao": "mttkrp_source_is_model"}
 
 
@@ -597,3 +706,55 @@ if __name__ == "__main__":
     repo = sys.argv[1] if len(sys.argv) > 1 else "/repo"
     for _, name, _, _ in ROUTINES:
         print(generate(repo, name))
+
+
+# ----------------------------------------------------------------------------- routing: the translated sources are the code that runs
+BACKEND_FILES = {"mode_dot": "n_mode_product", "multi_mode_dot": "n_mode_product", "kronecker": "_kronecker", "khatri_rao": "_khatri_rao",
+                 "inner": "generalised_inner_product", "outer": "outer_product", "batched_outer": "outer_product",
+                 "higher_order_moment": "moments", "tensordot": "_batched_tensordot", "unfolding_dot_khatri_rao": "mttkrp"}
+# names the translator reads as model routines, per translated function: they must be bound to exactly these objects
+CALLEES = {"mode_dot": {"unfold": "tensorly.base:unfold", "fold": "tensorly.base:fold", "vec_to_tensor": "tensorly.base:vec_to_tensor"},
+           "multi_mode_dot": {"mode_dot": "tensorly.tenalg.core_tenalg.n_mode_product:mode_dot"},
+           "kronecker": {},
+           "unfolding_dot_khatri_rao": {"khatri_rao": "tensorly.tenalg.core_tenalg._khatri_rao:khatri_rao", "unfold": "tensorly.base:unfold"}}
+
+
+def routing(repo):
+    """Problems (strings) with the routing of the property's routines: under each tenalg backend the registered method of every routine
+    must be the function of that name defined in tensorly/tenalg/<backend>_tenalg/<file>.py of the checked tree (the file the
+    source ties parse), and inside the translated core functions the names read as model routines (mode_dot, khatri_rao, unfold,
+    fold, vec_to_tensor, the backend alias T) must be bound to the intended objects."""
+    import importlib, inspect
+    problems = []
+    import tensorly
+    from tensorly.tenalg.base_tenalg import TenalgBackend
+    for be in ("core", "einsum"):
+        importlib.import_module(f"tensorly.tenalg.{be}_tenalg")
+        cls = TenalgBackend._available_tenalg_backends.get(be)
+        if cls is None:
+            problems.append(f"tenalg backend {be} is not registered")
+            continue
+        for name, stem in BACKEND_FILES.items():
+            f = getattr(cls, name, None)
+            want = os.path.realpath(os.path.join(repo, "tensorly", "tenalg", f"{be}_tenalg", stem + ".py"))
+            try:
+                got = os.path.realpath(inspect.getsourcefile(f))
+            except TypeError:
+                got = None
+            if f is None or got != want or getattr(f, "__name__", None) != name:
+                problems.append(f"{be} backend: {name} is routed to {getattr(f, '__qualname__', f)} in {got}, not to {name} in {want}")
+    for rel, name, _, _ in ROUTINES:
+        mod = importlib.import_module("tensorly.tenalg.core_tenalg." + rel[:-3])
+        f = getattr(mod, name, None)
+        node = _function(repo, rel, name)
+        if f is None or f.__code__.co_firstlineno != node.lineno:
+            problems.append(f"core {name}: the loaded function is not the definition parsed from {rel}")
+            continue
+        for callee, target in CALLEES[name].items():
+            m, a = target.split(":")
+            if f.__globals__.get(callee) is not getattr(importlib.import_module(m), a, None):
+                problems.append(f"core {name}: the name {callee} is not bound to {target}")
+        for alias in BACKEND_ALIASES:
+            if alias in f.__globals__ and alias in {n.id for n in ast.walk(node) if isinstance(n, ast.Name)} and f.__globals__[alias] is not tensorly.backend:
+                problems.append(f"core {name}: the backend alias {alias} is not tensorly.backend")
+    return problems
